@@ -2,7 +2,7 @@
    Property theorems only; the model is Bac.Net (no proofs), the proofs live in Bac.NetFacts.
    Local theorems hold for EVERY node state, adapter, and arriving frame of the model.  `Fwd` marks the copies made
    by the forwarding section of process_npdu (netservice.py:607-676), `Tx` every other frame a node emits. *)
-From Bac Require Import Base Net NetFacts NetTerm NetTerm2 NetReply NetOnce NetRoute NetArrive NetLocal NetBcast NetTree NetFlood.
+From Bac Require Import Base Net NetFacts NetTerm NetTerm2 NetReply NetOnce NetRoute NetArrive NetLocal NetBcast NetTree NetFlood NetRound.
 Open Scope N_scope.
 
 (* each router hop lowers the hop count by exactly one, and keeps payload and message type *)
@@ -374,6 +374,37 @@ Theorem C06_tree_global_broadcast_once : forall w s lv up par src ws smac data,
 Proof. exact tree_global_broadcast_once. Qed.
 Print Assumptions C06_tree_global_broadcast_once.
 
+(* C06_reply_routable, all hops: on a loop-free internetwork that is warm towards d (tree_to) and in which NOBODY
+   knows anything about network s beforehand, a unicast from station A on s to station B = (d, dm) is delivered
+   exactly once at B showing (s, smac), and B's reply to the source shown is then delivered exactly once at A,
+   showing (d, dm), after which the internetwork is quiet for ever: every router on the way has learned the way
+   back from the SADR of the request (learned_path_back), and B has learned the last router.  (With caches that
+   already hold entries about s the statement needs those entries to be correct; the cold case is the one in
+   which reply routability rests on the source address shown alone.) *)
+Theorem C06_reply_routable : forall w d lv up par srcn ws s smac a_s tgt wt dm a_t data rdata mR,
+  internet_ok (lans w) (nodes w) -> tree_to (lans w) (nodes w) d lv up par -> queue w = [] ->
+  nth_error (nodes w) srcn = Some ws -> w_ports ws = [(s, smac)] -> adapters (w_node ws) = [a_s] ->
+  (a_net a_s = None \/ a_net a_s = Some s) -> has_app (w_node ws) = true ->
+  In (tgt, 0%nat) (lan_members (lans w) d) -> nth_error (nodes w) tgt = Some wt ->
+  w_ports wt = [(d, dm)] -> adapters (w_node wt) = [a_t] -> (a_net a_t = None \/ a_net a_t = Some d) ->
+  has_app (w_node wt) = true ->
+  (0 < lv s <= 255)%nat ->
+  pending_get (pending (w_node ws)) d = None -> pending_get (pending (w_node wt)) s = None ->
+  port_mac (nodes w) (par s) = Some mR -> cache_get (rcache (w_node ws)) (a_net a_s) d = Some mR ->
+  apdu_ok data = true -> apdu_ok rdata = true ->
+  (forall who wn, nth_error (nodes w) who = Some wn -> forall x, cache_get (rcache (w_node wn)) x s = None) ->
+  let w0 := submit w srcn (ARS d dm) data in
+  exists k1 osn1,
+    queue (run k1 w0) = [] /\ trace (run k1 w0) = osn1 ++ trace w /\
+    oups osn1 = [OUp tgt (ARS s smac) (ALS dm) data] /\
+    let w2 := submit (run k1 w0) tgt (ARS s smac) rdata in
+    exists k2 osn2,
+      queue (run k2 w2) = [] /\ (forall k', (k2 <= k')%nat -> run k' w2 = run k2 w2) /\
+      trace (run k2 w2) = osn2 ++ trace (run k1 w0) /\
+      oups osn2 = [OUp srcn (ARS d dm) (ALS smac) rdata].
+Proof. exact tree_reply_routable. Qed.
+Print Assumptions C06_reply_routable.
+
 (* C06_reply_routable is FALSE of the code when the originator is an application on a router: router with ports
    (net 1, net 2), local adapter = net 2, broadcasts globally; the station on net 1 is shown the router's net-1
    address in local form; its reply to that address arrives on the non-local adapter and is handed to nobody. *)
@@ -649,6 +680,81 @@ Example C06_tree4_global_broadcast_once :
 Proof.
   eapply (tree_global_broadcast_once tree4 1 lv1 up1 par1 2%nat _ [1] [16; 99; 3] C06_tree4_internet_ok C06_tree4_tree_from_1); try reflexivity.
   unfold station_shape. cbn. do 3 eexists. repeat split; auto.
+Qed.
+
+(* the four-network tree, cold about network 1: routes towards network 4 only *)
+Definition tree4c : world :=
+  mkWorld
+    [mkW (mkNode [mkAd (Some 1) (Some [10]); mkAd (Some 2) (Some [10]); mkAd (Some 3) (Some [10])] false
+                 [((Some 3, 4), [11])] []) [(1, [10]); (2, [10]); (3, [10])];
+     mkW (mkNode [mkAd (Some 3) (Some [11]); mkAd (Some 4) (Some [11])] false [] []) [(3, [11]); (4, [11])];
+     mkW (mkNode [mkAd (Some 1) (Some [1])] true [((Some 1, 4), [10])] []) [(1, [1])];
+     mkW (mkNode [mkAd (Some 2) (Some [1])] true [] []) [(2, [1])];
+     mkW (mkNode [mkAd None None] true [] []) [(3, [1])];
+     mkW (mkNode [mkAd (Some 4) (Some [1])] true [] []) [(4, [1])];
+     mkW (mkNode [mkAd None (Some [2])] true [] []) [(4, [2])]]
+    [(1, [(0, 0); (2, 0)]%nat); (2, [(0, 1); (3, 0)]%nat); (3, [(0, 2); (1, 0); (4, 0)]%nat);
+     (4, [(1, 1); (5, 0); (6, 0)]%nat)]
+    [] [].
+Example C06_tree4c_internet_ok : internet_ok (lans tree4c) (nodes tree4c).
+Proof.
+  constructor.
+  - intros lan x Hx. cbn [lans tree4c lan_members] in Hx. split_lan lan; cbn in Hx;
+      repeat (destruct Hx as [Hx|Hx]; [subst x; eexists; reflexivity|]); contradiction.
+  - intros [who p] lan m H. unfold port_of in H. cbn [fst snd nodes tree4c] in H.
+    do 7 (destruct who as [|who]; [do 3 (destruct p as [|p]; [cbn in H; inversion H; subst; cbn; auto 6|]); destruct p; discriminate|]).
+    destruct who; discriminate.
+  - intro lan. apply lans_distinctb_sound. reflexivity.
+  - intro lan. cbn [lans tree4c lan_members]. split_lan lan; cbn; repeat constructor; cbn; intuition discriminate.
+  - intros who w H. cbn [nodes tree4c] in H.
+    do 7 (destruct who as [|who]; [inversion H; subst;
+      first [left; unfold router_shape; cbn; repeat split; [lia|repeat constructor; cbn; intuition discriminate]
+            |right; unfold station_shape; cbn; do 3 eexists; repeat split; auto]|]).
+    destruct who; discriminate.
+Qed.
+
+
+Example C06_tree4c_tree_to_4 : tree_to (lans tree4c) (nodes tree4c) 4 lv4 up4 par4.
+Proof.
+  constructor.
+  - reflexivity.
+  - intros who w H Hsh. cbn [nodes tree4c] in H.
+    destruct who as [|[|who]].
+    + inversion H; subst. exists 3, [10]. cbn. repeat split; try discriminate.
+      * intros p lp mp Hp Hne. do 3 (destruct p as [|p]; [cbn in Hp; inversion Hp; subst; try reflexivity; try contradiction|]).
+        destruct p; discriminate.
+      * intros _. exists [11]. split; reflexivity.
+    + inversion H; subst. exists 4, [11]. cbn. repeat split; try reflexivity.
+      * intros p lp mp Hp Hne. do 2 (destruct p as [|p]; [cbn in Hp; inversion Hp; subst; try reflexivity; try contradiction|]).
+        destruct p; discriminate.
+      * intro C. contradiction.
+    + exfalso. do 5 (destruct who as [|who]; [inversion H; subst; destruct Hsh as (Hl & _); cbn in Hl; lia|]).
+      destruct who; discriminate.
+  - intros L [[who p] [m Hx]] Hlv. unfold port_of in Hx. cbn [fst snd nodes tree4c] in Hx.
+    assert (HL : L = 1 \/ L = 2 \/ L = 3).
+    { do 7 (destruct who as [|who]; [do 3 (destruct p as [|p]; [cbn in Hx; inversion Hx; subst; auto; try (exfalso; apply Hlv; reflexivity)|]); destruct p; discriminate|]).
+      destruct who; discriminate. }
+    destruct HL as [E|[E|E]]; subst L; cbn; (split; [auto 6|]); eexists; (split; [reflexivity|]);
+      (split; [unfold router_shape; cbn; repeat split; [lia|repeat constructor; cbn; intuition discriminate]|discriminate]).
+Qed.
+
+
+Example C06_tree4c_round_trip :
+  let w0 := submit tree4c 2 (ARS 4 [2]) [16; 99; 1] in
+  exists k1 osn1,
+    queue (run k1 w0) = [] /\ trace (run k1 w0) = osn1 ++ trace tree4c /\
+    oups osn1 = [OUp 6 (ARS 1 [1]) (ALS [2]) [16; 99; 1]] /\
+    let w2 := submit (run k1 w0) 6 (ARS 1 [1]) [16; 99; 2] in
+    exists k2 osn2,
+      queue (run k2 w2) = [] /\ (forall k', (k2 <= k')%nat -> run k' w2 = run k2 w2) /\
+      trace (run k2 w2) = osn2 ++ trace (run k1 w0) /\
+      oups osn2 = [OUp 2 (ARS 4 [2]) (ALS [1]) [16; 99; 2]].
+Proof.
+  eapply (tree_reply_routable tree4c 4 lv4 up4 par4 2%nat _ 1 [1] _ 6%nat _ [2] _ [16; 99; 1] [16; 99; 2] [10] C06_tree4c_internet_ok C06_tree4c_tree_to_4);
+    try reflexivity; cbn; auto 6; try lia.
+  intros who wn H x.
+  do 7 (destruct who as [|who]; [inversion H; subst; clear H; unfold cache_get, key_eqb; cbn; rewrite ?andb_false_r; reflexivity|]).
+  destruct who; discriminate.
 Qed.
 
 Example C06_tree_unicast_example :
